@@ -150,6 +150,52 @@ func main() {
 			}
 		})
 
+		// A reason obtained through the zero-copy parser shares memory with the frame buffer, which
+		// the application reuses for the next frame: the verdict on a reason is a function of the
+		// bytes it holds when it is checked - not of what that string, or an equal one, held at an
+		// earlier check.
+		r.Part("E2d-reason-verdict-has-no-memory", func(t *explore.T) {
+			units := []string{"a", "\u00e9", "\u20ac", "\xff", "\xe2\x82", "\x80", "bye"}
+			byLen := map[int][]string{}
+			var gen func(cur string, k int)
+			gen = func(cur string, k int) {
+				if k > 0 {
+					byLen[len(cur)] = append(byLen[len(cur)], cur)
+				}
+				if k == 3 {
+					return
+				}
+				for _, u := range units {
+					gen(cur+u, k+1)
+				}
+			}
+			gen("", 0)
+			for n, rs := range byLen {
+				n, rs := n, rs
+				t.DoN(int64(len(rs)*len(rs)), func() string { return fmt.Sprintf("every ordered pair of the %d reasons of %d bytes through one reused frame buffer", len(rs), n) }, func() *explore.Fail {
+					for _, first := range rs {
+						for _, second := range rs {
+							body := ws.NewCloseFrameBody(1000, first)
+							code, reason := ws.ParseCloseFrameDataUnsafe(body)
+							e1 := ws.CheckCloseFrameData(code, reason)
+							if (e1 == nil) != utf8.ValidString(first) {
+								return explore.Failf("verdict", "reason %q: %v", first, e1)
+							}
+							copy(body[2:], second) // the buffer now holds the next close frame
+							e2 := ws.CheckCloseFrameData(code, reason)
+							e3 := ws.CheckCloseFrameData(code, string(append([]byte{}, second...)))
+							want := utf8.ValidString(second)
+							if (e2 == nil) != want || (e3 == nil) != want {
+								return explore.Failf("reason-verdict-depends-on-earlier-check", "buffer held %q (checked: %v), now holds %q: in place %v, fresh copy %v, want valid=%v", first, e1, second, e2, e3, want)
+							}
+						}
+					}
+					return nil
+				})
+			}
+			t.Outcome("memoryless")
+		})
+
 		// long reasons: an ASCII reason of every length up to 123 with one position (or two
 		// adjacent ones) replaced by a malformed byte, a truncated sequence or a valid 2-byte
 		// character - wherever it sits relative to any block a validator may scan at a time
